@@ -27,7 +27,7 @@ GROUPS = {
     "dynamics": {
         "package": "zydeco-dynamics",
         "mods": {
-            "lang/dynamics/src/impls.rs": "dynamics_impls.rs",
+            "lang/dynamics/src/impls.rs": ["dynamics_impls_c05.rs", "dynamics_impls_c06.rs"],
         },
         # drop elision of the by-value argument vectors (see harness/dynamics_impls.rs header);
         # (regex, replacement, minimum number of matches) - fewer matches => inconclusive
